@@ -2,6 +2,6 @@ SPECIFICATION TSpec
 CONSTANTS
   MaxForge = 99
   ScenarioSet = "trace"
-INVARIANTS Report MakeJoinExact MakeLeaveExact TemplateShape SendJoinExact InviteExact ReturnsCountersigned
+INVARIANTS Report MakeJoinExact MakeLeaveExact TemplateShape SendJoinExact InviteExact ReturnsCountersigned TemplateAuthoriser OtherIdentitiesIrrelevant
 POSTCONDITION TraceAccepted
 CHECK_DEADLOCK FALSE
